@@ -22,8 +22,8 @@ def run(pid, tier, v, wd, repo, tags="verif,dae_stub_ebpf"):
     n = 0
     with open(infile, "w") as out:
         plan = {   # configuration -> 1/keep of its behaviours in the quick tier
-            "C06": [("UdpFlow_genA.cfg", 3), ("UdpFlow_genAB.cfg", 1)],
-            "C13": [("UdpFlow_genA.cfg", 3), ("UdpFlow_genAB.cfg", 1), ("UdpFlow_genScope.cfg", 8), ("UdpFlow_genMixed.cfg", 8)],
+            "C06": [("UdpFlow_genA.cfg", 3), ("UdpFlow_genAB.cfg", 1), ("UdpFlow_genConn2.cfg", 3)],
+            "C13": [("UdpFlow_genA.cfg", 3), ("UdpFlow_genAB.cfg", 1), ("UdpFlow_genScope.cfg", 8), ("UdpFlow_genMixed.cfg", 8), ("UdpFlow_genConn2.cfg", 4)],
             "C18": [("UdpFlow_genAB.cfg", 1), ("UdpFlow_genMixed.cfg", 8)],
         }[pid] + ([("UdpFlow_genAB5.cfg", 1)] if tier != "quick" else [])
         for cfg, keep in plan:
@@ -60,7 +60,7 @@ def run(pid, tier, v, wd, repo, tags="verif,dae_stub_ebpf"):
     c = res.get("counters") or {}
     if c.get("uf_replayed_batches", 0) == 0 or c.get("uf_steps_with_held_datagrams", 0) == 0:
         raise vlib.Infra("the handlePkt replay never held or replayed a datagram: vacuous (%s)" % c)
-    v.assumptions.append("handlePkt: one client source, flows to two sniffable destinations and one other; kernel routing results cpr (two DSCP values) / g1 / g2, with and without a routing program that looks at packet metadata (endpoint keys with routing scope); ClientHello in one or two Initial datagrams (QUIC v1, "
+    v.assumptions.append("handlePkt: one client source, flows to two sniffable destinations and one other; kernel routing results cpr (two DSCP values) / g1 / g2, with and without a routing program that looks at packet metadata (endpoint keys with routing scope); ClientHello in one or two Initial datagrams, optionally followed by the Initial of a second connection (other connection ids and name) on the same addresses and ports (QUIC v1, "
                          "packet-number lengths 1-4, protected by an independent RFC 9001 implementation); the harness classifies each datagram as the ingress loop of "
                          "control_plane.go does (ClassifyUdpFlow + EnsureSnifferSession) and calls handlePkt one datagram at a time; fixed-policy groups g1 / g2 behind "
                          "routing { domain(full: example.com) -> g2, fallback: g1 }; replies from upstream are not driven; virtual time")
